@@ -171,7 +171,7 @@ Definition round_robin (lo n k : nat) : list nat :=
   concat (repeat (map (fun i => lo + i) (seq 0 n)) k).
 
 Definition race_totals (n : nat) : list nat :=
-  let bv := fun i _ => Some (Z.of_nat i) in
+  let bv := fun i _ => Some (Some (Z.of_nat i)) in
   let s1 := run_sched (mstep bv) (minit (race_prog n)) (round_robin 1 n (6 * n)) in
   let s2 := run_sched (mstep bv) s1 ([0; 0; 0] ++ round_robin (n + 1) n (6 * n)) in
   [m_total s1; m_total s2].
@@ -224,3 +224,102 @@ Definition fcheck (c : fcase) : nat :=
 
 Definition fbad (cases : list fcase) : list (nat * nat) :=
   filter (fun p => negb (Nat.eqb (snd p) 0)) (index_from 0 (map fcheck cases)).
+
+(** ** sequential histories of a probe decorated with the real [utils.cached]
+
+    The probe's body returns, per scripted argument tuple [k], the result [nth k p_body]
+    ([None] = Python's [None]; [Some c] = another object, by code: 0, "", (None, None),
+    a tuple, False ...).  Observed per command: how often the body ran during it and the
+    value returned ([None] for an invalidation).
+
+    [pcheck]: 1 = differs from the model (the micro-step model of [cached_wrapper] run by
+    one thread to completion); 2 = the observations contradict the specification, judged
+    on the observations alone: within one invalidation epoch the body runs at most once
+    per argument tuple — never again once it has run —, an invalidation runs nothing, and
+    every call returns the body's result for its argument. *)
+Open Scope Z_scope.
+
+Record pcase := {
+  p_body : list mres;
+  p_cmds : list mcmd;
+  p_runs : list nat;
+  p_vals : list (option mres)
+}.
+
+Definition mres_eqb (a b : mres) : bool :=
+  match a, b with
+  | None, None => true
+  | Some x, Some y => Z.eqb x y
+  | _, _ => false
+  end.
+
+Fixpoint cumul (acc : nat) (l : list nat) : list nat :=
+  match l with [] => [] | n :: r => (acc + n)%nat :: cumul (acc + n)%nat r end.
+
+Fixpoint mresl_eqb (a b : list mres) : bool :=
+  match a, b with
+  | [], [] => true
+  | x :: a', y :: b' => mres_eqb x y && mresl_eqb a' b'
+  | _, _ => false
+  end.
+
+Fixpoint somes {A} (l : list (option A)) : list A :=
+  match l with [] => [] | Some x :: r => x :: somes r | None :: r => somes r end.
+
+Fixpoint runs_ok (body : list mres) (seen : list nat) (cmds : list mcmd)
+         (runs : list nat) (vals : list (option mres)) : bool :=
+  match cmds, runs, vals with
+  | [], [], [] => true
+  | MInval :: r, n :: ns, v :: vs =>
+    Nat.eqb n 0 && match v with None => true | Some _ => false end && runs_ok body [] r ns vs
+  | MCall k :: r, n :: ns, v :: vs =>
+    (if existsb (Nat.eqb k) seen then Nat.eqb n 0 else Nat.leb n 1)
+    && match v with Some x => mres_eqb x (nth k body None) | None => false end
+    && runs_ok body (if Nat.eqb n 0 then seen else k :: seen) r ns vs
+  | _, _, _ => false
+  end.
+
+Definition pcheck (c : pcase) : nat :=
+  let bv := fun (_ k : nat) => Some (nth k (p_body c) None) in
+  let ok_model :=
+      nl_eqb (cumul 0 (p_runs c)) (map fst (mseq_trace bv (p_cmds c)))
+      && mresl_eqb (somes (p_vals c))
+                   (map snd (m_rets (m_th (mseq bv (p_cmds c)) 0))) in
+  ((if ok_model then 0 else 1)
+   + (if runs_ok (p_body c) [] (p_cmds c) (p_runs c) (p_vals c) then 0 else 2))%nat.
+
+Definition preport (cases : list pcase) : list (nat * nat) := index_from 0 (map pcheck cases).
+
+(** ** a win-size-swap toggle scheduled against a [get_cell_size] in a second thread
+
+    Thread 0 runs [s_prog] (toggles), thread 1 one [get_cell_size()], on a terminal where
+    swapped and unswapped cell sizes differ; the real threads are scheduled
+    deterministically (thread 1 runs at a chosen lock event of thread 0) and [s_sched] is
+    that schedule in the model's micro-steps.  Observed afterwards: the flag, the cache
+    and thread 1's return value (coded 0 = empty / None, 1 = the value for flag [false],
+    2 = the value for flag [true], 3 = anything else), and — raw — a [get_cell_size()]
+    made after both threads finished, with the twin's fresh value for the final flag.
+
+    [scheck]: 1 = differs from the model; 2 = the call made after the toggle returned
+    does not answer with the fresh value (specification, on observations alone). *)
+Record scase := {
+  s_f0 : bool; s_warm : bool; s_prog : list wcmd; s_sched : list nat;
+  s_flag : bool; s_cache : Z; s_bret : Z; s_ncomp : nat;
+  s_after : list Z; s_fresh : list Z
+}.
+
+Definition code_of (o : option bool) : Z :=
+  match o with None => 0 | Some false => 1 | Some true => 2 end.
+
+Definition scheck (c : scase) : nat :=
+  let prog := fun t : nat => match t with 0%nat => s_prog c | 1%nat => [WGet] | _ => [] end in
+  let s := run_sched wstep (winit (s_f0 c) (if s_warm c then Some (s_f0 c) else None) prog) (s_sched c) in
+  let done := fun t => match w_pc (w_th s t), w_todo (w_th s t) with WIdle, [] => true | _, _ => false end in
+  let ok_model :=
+      done 0%nat && done 1%nat
+      && Bool.eqb (w_flag s) (s_flag c) && Z.eqb (code_of (w_cache s)) (s_cache c)
+      && match w_rets (w_th s 1%nat) with [f] => Z.eqb (code_of (Some f)) (s_bret c) | _ => false end
+      && Nat.eqb (w_ncomp s) (s_ncomp c) in
+  ((if ok_model then 0 else 1) + (if zl_eqb (s_after c) (s_fresh c) then 0 else 2))%nat.
+
+Definition sreport (cases : list scase) : list (nat * nat) := index_from 0 (map scheck cases).
